@@ -293,6 +293,11 @@ func (s *exState) ex(v ssa.Value) string {
 		st := v.X.Type().Underlying().(*types.Struct)
 		return s.ex(v.X) + "." + st.Field(v.Field).Name()
 	case *ssa.UnOp:
+		if g, ok := v.X.(*ssa.Global); ok && v.Op == token.MUL {
+			if iv := newGlobalInit(g); iv != nil {
+				return s.ex(iv)
+			}
+		}
 		x := s.ex(v.X)
 		switch v.Op {
 		case token.MUL:
@@ -1342,4 +1347,206 @@ func canonEdgeCond(iff *ssa.If, idx int, norm func(string) string) string {
 		return "!" + s
 	}
 	return s
+}
+
+var globalInitCache = map[*ssa.Global]ssa.Value{}
+
+// newGlobalInit: for a private package variable that does not exist on the reference tree (a hoisted constant
+// such as a pre-compiled regexp) and is assigned exactly once, in the package initialiser, from a value built
+// of constants: that value. The variable is then rendered as its initialiser, i.e. as the expression it was
+// hoisted from. nil otherwise.
+func newGlobalInit(g *ssa.Global) ssa.Value {
+	if v, ok := globalInitCache[g]; ok {
+		return v
+	}
+	globalInitCache[g] = nil
+	if g.Pkg == nil || token.IsExported(g.Name()) || !strings.HasPrefix(g.Pkg.Pkg.Path(), modPath) {
+		return nil
+	}
+	if _, known := knownMembers[pkgKey(g.Pkg.Pkg.Path())+":var:"+g.Name()]; known || len(knownMembers) == 0 {
+		return nil
+	}
+	var val ssa.Value
+	n := 0
+	addrTaken := false
+	var scan func(fn *ssa.Function)
+	scan = func(fn *ssa.Function) {
+		for _, b := range fn.Blocks {
+			for _, in := range b.Instrs {
+				if st, ok := in.(*ssa.Store); ok && st.Addr == ssa.Value(g) {
+					n++
+					if fn.Name() == "init" && fn.Parent() == nil {
+						val = st.Val
+					}
+					continue
+				}
+				for _, op := range in.Operands(nil) {
+					if *op == ssa.Value(g) {
+						if u, ok := in.(*ssa.UnOp); !ok || u.Op != token.MUL {
+							addrTaken = true
+						}
+					}
+				}
+			}
+		}
+		for _, af := range fn.AnonFuncs {
+			scan(af)
+		}
+	}
+	for _, m := range g.Pkg.Members {
+		switch x := m.(type) {
+		case *ssa.Function:
+			scan(x)
+		case *ssa.Type:
+			for _, t := range []types.Type{x.Type(), types.NewPointer(x.Type())} {
+				ms := g.Pkg.Prog.MethodSets.MethodSet(t)
+				for i := 0; i < ms.Len(); i++ {
+					if f := g.Pkg.Prog.MethodValue(ms.At(i)); f != nil && f.Pkg == g.Pkg {
+						scan(f)
+					}
+				}
+			}
+		}
+	}
+	if n != 1 || val == nil || addrTaken || !constBuilt(val, 0) {
+		return nil
+	}
+	globalInitCache[g] = val
+	return val
+}
+
+// constBuilt: the value is a constant or a call / conversion whose operands are constBuilt.
+func constBuilt(v ssa.Value, depth int) bool {
+	if depth > 4 {
+		return false
+	}
+	switch x := v.(type) {
+	case *ssa.Const:
+		return true
+	case *ssa.Call:
+		if x.Call.IsInvoke() || x.Call.StaticCallee() == nil {
+			return false
+		}
+		for _, a := range x.Call.Args {
+			if !constBuilt(a, depth+1) {
+				return false
+			}
+		}
+		return true
+	case *ssa.Convert:
+		return constBuilt(x.X, depth+1)
+	case *ssa.MakeInterface:
+		return constBuilt(x.X, depth+1)
+	}
+	return false
+}
+
+// selectsBy: v is `cond ? whenTrue : whenFalse` — a phi whose every incoming edge lies on one side of an If on
+// cond (rendered by ex, any equivalent form) and carries the corresponding value. Integer conversions around
+// v and around the edge values are ignored.
+func selectsBy(fn *ssa.Function, v ssa.Value, cond, whenTrue, whenFalse string) bool {
+	peelConv := func(v ssa.Value) ssa.Value {
+		for {
+			cv, ok := v.(*ssa.Convert)
+			if !ok || intWidth(cv.Type()) == 0 || intWidth(cv.X.Type()) == 0 {
+				return v
+			}
+			v = cv.X
+		}
+	}
+	p, ok := peelConv(v).(*ssa.Phi)
+	if !ok {
+		return false
+	}
+	nT, nF := 0, 0
+	for i, e := range p.Edges {
+		pred := p.Block().Preds[i]
+		side := -1
+		for _, iff := range ifsIn(fn) {
+			t, f, hit := succWhen(iff, cond)
+			if !hit || t == f {
+				continue
+			}
+			switch {
+			case iff.Block() == pred && t == p.Block(), edgeMustPass(fn, edge{iff.Block(), t}, pred):
+				side = 1
+			case iff.Block() == pred && f == p.Block(), edgeMustPass(fn, edge{iff.Block(), f}, pred):
+				side = 0
+			}
+		}
+		val := ex(peelConv(e))
+		switch {
+		case side == 1 && val == whenTrue:
+			nT++
+		case side == 0 && val == whenFalse:
+			nF++
+		default:
+			return false
+		}
+	}
+	return nT > 0 && nF > 0
+}
+
+// awaitSelect: the blocking select of fn that waits for a local result channel (a channel allocated in fn, as
+// opposed to a field of the receiver): the select by which a supervisor awaits its workers. Other blocking
+// selects (e.g. an inlined hand-over to the node) are not confused with it. Falls back to the select with the
+// most cases.
+func awaitSelect(fn *ssa.Function) *ssa.Select {
+	var best, widest *ssa.Select
+	for _, in := range allInstrs(fn) {
+		s, ok := in.(*ssa.Select)
+		if !ok || !s.Blocking {
+			continue
+		}
+		if widest == nil || len(s.States) > len(widest.States) {
+			widest = s
+		}
+		for _, st := range s.States {
+			if st.Dir == types.RecvOnly && rootAlloc(st.Chan) != nil && best == nil {
+				best = s
+			}
+		}
+	}
+	if best != nil {
+		return best
+	}
+	return widest
+}
+
+// widestLoopSelect: the blocking select inside a loop of fn with the most cases (the event loop's own select,
+// as opposed to a hand-over select inlined into one of its cases).
+func widestLoopSelect(fn *ssa.Function) *ssa.Select {
+	var widest *ssa.Select
+	for _, in := range allInstrs(fn) {
+		if s, ok := in.(*ssa.Select); ok && s.Blocking && inLoop(s.Block()) {
+			if widest == nil || len(s.States) > len(widest.States) {
+				widest = s
+			}
+		}
+	}
+	return widest
+}
+
+// dependsOn: v is computed from src through extractions, Next, conversions and loads only.
+func dependsOn(v, src ssa.Value) bool {
+	for i := 0; i < 8 && v != nil; i++ {
+		if v == src {
+			return true
+		}
+		switch x := v.(type) {
+		case *ssa.Extract:
+			v = x.Tuple
+		case *ssa.Next:
+			v = x.Iter
+		case *ssa.ChangeType:
+			v = x.X
+		case *ssa.Convert:
+			v = x.X
+		case *ssa.UnOp:
+			v = x.X
+		default:
+			return false
+		}
+	}
+	return false
 }
